@@ -18,5 +18,9 @@ for d in sys.argv[1:]:
         if not ev["coverage"].get("exhaustive"):
             continue
         floors.setdefault(ev["property_id"], {})[ev["tier"]] = int(0.8 * ev["coverage"]["distinct_nontrivial"])
+        # counters of *decided* states where "non-trivial" also counts explicit rejections (C16: finite non-zero results)
+        cnt = {k: int(0.8 * v) for k, v in ev["coverage"].get("measured", {}).items() if k in ("n_ok_nonzero",)}
+        if cnt:
+            floors[ev["property_id"]][ev["tier"] + ":counters"] = cnt
 json.dump(floors, open(path, "w"), indent=1, sort_keys=True)
 print(json.dumps(floors, sort_keys=True))
